@@ -1,20 +1,21 @@
 #!/bin/bash
 # Evaluate the checks against a seeded change WITHOUT touching /repo (other builders use it):
 #   tools/muteval.sh <patch.diff> <Cxx> [quick|thorough]
-# Uses a scratch worktree /tmp/mrepo and a scratch copy of /verif at /tmp/mverif whose harness
+# Uses a scratch worktree /tmp/mrepo$MUT_ID and a scratch copy of /verif at /tmp/mverif$MUT_ID whose harness
 # points at the scratch worktree.  (The final confirmation against /repo itself is done with
 # `git -C /repo apply` / `git -C /repo checkout -- .` when no builder is running.)
 set -u
 PATCH=$(readlink -f "$1"); PID=$2; TIER=${3:-quick}
-if [ ! -d /tmp/mrepo ]; then git -C /repo worktree add --detach /tmp/mrepo HEAD -q; fi
-git -C /tmp/mrepo checkout -q --detach $(git -C /repo rev-parse HEAD)
-git -C /tmp/mrepo checkout -- . ; git -C /tmp/mrepo clean -fdq -e target
-mkdir -p /tmp/mverif
-rsync -a --delete --exclude harness/target --exclude work --exclude .git --exclude replays --exclude evidence /verif/ /tmp/mverif/
-sed -i 's|path = "/repo/|path = "/tmp/mrepo/|g' /tmp/mverif/harness/Cargo.toml
-mkdir -p /tmp/mverif/evidence
-git -C /tmp/mrepo apply "$PATCH" || { echo "patch does not apply"; exit 3; }
-( cd /tmp/mverif && VERIF_REPO=/tmp/mrepo timeout 3000 ./check "$PID" "$TIER" ); RC=$?
-git -C /tmp/mrepo checkout -- . ; git -C /tmp/mrepo clean -fdq -e target
+MR=/tmp/mrepo${MUT_ID:-}; MV=/tmp/mverif${MUT_ID:-}
+if [ ! -d $MR ]; then git -C /repo worktree add --detach $MR HEAD -q; fi
+git -C $MR checkout -q --detach $(git -C /repo rev-parse HEAD)
+git -C $MR checkout -- . ; git -C $MR clean -fdq -e target
+mkdir -p $MV
+rsync -a --delete --exclude harness/target --exclude work --exclude .git --exclude replays --exclude evidence /verif/ $MV/
+sed -i "s|path = \"/repo/|path = \"$MR/|g" $MV/harness/Cargo.toml
+mkdir -p $MV/evidence
+git -C $MR apply "$PATCH" || { echo "patch does not apply"; exit 3; }
+( cd $MV && VERIF_REPO=$MR timeout 3000 ./check "$PID" "$TIER" ); RC=$?
+git -C $MR checkout -- . ; git -C $MR clean -fdq -e target
 echo "muteval rc=$RC"
 exit $RC
